@@ -54,5 +54,18 @@ def run(tier, seed):
     if traces:
       ctx.sample({"direction": "B", "scenario": kept[0].key(),
                 "impute_events": traces[0]["calls"][1]["imputes"][:2] if len(traces[0]["calls"]) > 1 else None})
+    # large numbers of inner samples and a library Wrapper as model function (batched evaluation paths)
+    from harness import gen_explainer as G
+    from fractions import Fraction as F
+    big = []
+    for i in range(8 if quick else 60):
+        d = rng.choice([1, 2])
+        stream = [([F(rng.randrange(-3, 4), 2) for _ in range(d)], rng.randrange(0, 3),
+                   rng.choice([None, 7, 64, 65, 100, 130]) if t else None, True) for t in range(4)]
+        big.append(G.Scenario(cls=["pfi", "sage"][i % 2], d=d, names="str", n_inner=rng.choice([1, 66]), dynamic=True, alpha=F(1, 2),
+                              storage=("interval", 3), imputer=[None, "joint", "product", "default"][i % 4], nlab=1,
+                              wrap="sklearn" if i % 4 != 3 or True else None, numeric="float", stream=stream, seed=rng.randrange(2 ** 31)))
+    tr3, kept3, _ = E.validate(ctx, big, wanted_trace, "imputer calls with up to 130 inner samples and a SklearnWrapper as model function")
+    ctx.count_clause("trace.impute.*(large n, wrapped model)", sum(len(c["imputes"]) for t in tr3 for c in t["calls"]))
     ctx.assume("TreeImputer is covered by C19")
     return ctx.finish()
